@@ -4,6 +4,7 @@ import (
 	"crypto/sha1"
 	"encoding/hex"
 	"fmt"
+	"math/rand"
 	"os"
 	"path/filepath"
 	"sort"
@@ -256,4 +257,67 @@ func shmDir(sub string) (string, error) {
 	}
 	d := filepath.Join(base, sub)
 	return d, os.MkdirAll(d, 0o755)
+}
+
+func newRand(seed int64) *rand.Rand { return rand.New(rand.NewSource(seed)) }
+
+// workQueue is an unbounded job queue served by a fixed number of workers;
+// jobs may submit further jobs.
+type workQueue struct {
+	mu      sync.Mutex
+	cond    *sync.Cond
+	jobs    []func()
+	pending int
+	closed  bool
+	wg      sync.WaitGroup
+}
+
+func newWorkQueue(workers int) *workQueue {
+	q := &workQueue{}
+	q.cond = sync.NewCond(&q.mu)
+	for w := 0; w < workers; w++ {
+		q.wg.Add(1)
+		go func() {
+			defer q.wg.Done()
+			for {
+				q.mu.Lock()
+				for len(q.jobs) == 0 && !q.closed {
+					q.cond.Wait()
+				}
+				if len(q.jobs) == 0 {
+					q.mu.Unlock()
+					return
+				}
+				j := q.jobs[0]
+				q.jobs = q.jobs[1:]
+				q.mu.Unlock()
+				j()
+				q.mu.Lock()
+				q.pending--
+				q.cond.Broadcast()
+				q.mu.Unlock()
+			}
+		}()
+	}
+	return q
+}
+
+func (q *workQueue) submit(j func()) {
+	q.mu.Lock()
+	q.jobs = append(q.jobs, j)
+	q.pending++
+	q.cond.Broadcast()
+	q.mu.Unlock()
+}
+
+// wait blocks until every submitted job (including jobs submitted by jobs) has finished.
+func (q *workQueue) wait() {
+	q.mu.Lock()
+	for q.pending > 0 {
+		q.cond.Wait()
+	}
+	q.closed = true
+	q.cond.Broadcast()
+	q.mu.Unlock()
+	q.wg.Wait()
 }
